@@ -40,7 +40,7 @@ ASSUMPTIONS = [
     "nothing is asserted about the bytes a failed or crashed save leaves behind",
 ]
 COMPONENTS = {"real": ["partitura.io.exportmatch", "partitura.io.importmatch", "partitura.io.matchfile_base / matchlines_v0 / matchlines_v1 / matchfile_utils", "musicanalysis.performance_codec (time maps, matched notes)", "score.add_measures/tie_notes/find_tuplets"], "stub": ["raw file layer (SimFS)", "line-level channel disturbances applied by the harness between writer and reader"]}
-PROBES = ("line_duplicated", "blank_lines", "conflicting_deletion", "conflicting_insertion", "ornament_entry", "deletion_entry", "insertion_entry", "pickup", "timesig_change", "ties", "grace", "pedal_lines", "fault_in_flight", "fixture_v0", "fixture_v1", "reader_on_torn_file")
+PROBES = ("second_generation", "line_duplicated", "blank_lines", "conflicting_deletion", "conflicting_insertion", "ornament_entry", "deletion_entry", "insertion_entry", "pickup", "timesig_change", "ties", "grace", "pedal_lines", "fault_in_flight", "fixture_v0", "fixture_v1", "reader_on_torn_file")
 
 FIXTURE_DIRS = ("/repo/tests/data/match",)
 
@@ -124,6 +124,8 @@ def generate(seed, tier, cfg):
             kind = f.choice(("F1", "F2", "F2", "F3", "F4", "F4")) if ops[oi]["k"] == "save" else f.choice(("F5", "F6"))
             err = {"F1": f.choice((28, 13)), "F2": f.choice((28, 5)), "F3": 28, "F4": 0, "F5": f.choice((2, 13)), "F6": 5}[kind]
             faults.append({"kind": kind, "path": "*", "at": f.choice((0, 0, 1, 2, 3)) if kind in ("F2", "F4", "F6") else 0, "errno": err, "op_index": oi})
+    if k.random() < 0.4:
+        ops.append({"k": "regen", "ppq": k.choice((480, 960, 100, 96, 384)), "mpq": k.choice((500000, 600000, 454545, 750000))})
     return {"mode": "roundtrip", "workload": asc, "perf_seed": st.workload.randrange(1 << 30), "ops": ops, "faults": faults, "knobs": {"ppq": k.choice((480, 480, 960, 100, 96)), "mpq": k.choice((500000, 500000, 600000, 454545)), "chunk": k.choice((0, 0, 7, 64, 1))}}
 
 
@@ -393,6 +395,7 @@ def execute(case, keep_log=False):
     path = "/simfs/a.match"
     content = {}
     disturbed = None
+    last_loaded = None
     fault_by_op = {}
     for f in case["faults"]:
         fault_by_op.setdefault(f["op_index"], []).append(f)
@@ -435,6 +438,34 @@ def execute(case, keep_log=False):
                             content[path] = "ref"
                         except Exception as e:
                             res.violation("D1-retry", "save", "fault-free retry after %s raised %s: %s" % (outcome, type(e).__name__, e), site=outcome.split(":")[0])
+            elif op["k"] == "regen":
+                # second generation: what was loaded (it carries ticks of the first file's clock) is written with
+                # another clock and loaded again; performance and alignment must survive, times to the nearest new tick
+                if last_loaded is not None:
+                    perf1, al1, sc1 = last_loaded
+                    pp1 = perf1.performedparts[0]
+                    res.probe("second_generation")
+                    nontrivial = True
+                    want2 = describe(pp1, al1, None, ppq=op["ppq"], mpq=op["mpq"])
+                    path2 = "/simfs/b.match"
+                    try:
+                        save_match(al1, pp1, sc1.parts[0], path2, ppq=op["ppq"], mpq=op["mpq"], assume_unfolded=True)
+                        perf2, al2, _ = with_timeout(20, load_match, path2, create_score=False), None, None
+                        perf2, al2 = perf2[0], perf2[1]
+                        compare(res, "regen", want2, describe(perf2, al2, None))
+                        outcome = "regen"
+                    except Timeout:
+                        res.violation("L1-termination", "regen", "load_match did not terminate within the step budget on a second-generation file", site="load_match")
+                        outcome = "timeout"
+                    except Exception as e:
+                        import traceback
+
+                        tb = traceback.extract_tb(e.__traceback__)
+                        site = [f for f in tb if "/partitura/" in f.filename]
+                        if not site:
+                            raise
+                        res.violation("A0-export-raised", "regen", "writing/loading what load_match returned with ppq=%s mpq=%s raised %s: %s (in %s)" % (op["ppq"], op["mpq"], type(e).__name__, e, site[-1].name), site=site[-1].name)
+                        outcome = "raised:" + type(e).__name__
             elif op["k"] == "disturb":
                 if content.get(path) == "ref":
                     txt = fs.get(path).decode("utf-8")
@@ -467,6 +498,8 @@ def execute(case, keep_log=False):
                     else:
                         n0 = len(res.violations)
                         compare(res, "load", want, describe(perf, al, sc.parts[0]))
+                        if len(res.violations) == n0:
+                            last_loaded = (perf, al, sc)
                         for v in res.violations[n0:]:
                             if shape["pickup_undelimited"] and v["oracle"] in ("A3-score", "A4-structure") and v["site"] in ("measures", "timesigs", "keysigs", "onset_beat", "duration_beat"):
                                 v["site"] = "pickup-undelimited:" + v["site"]
